@@ -1,55 +1,75 @@
 (* C08 — KAURI gains are real objective increases and the chosen split is the best one.
    Statements only; every proof is [exact <lemma of Proofs/KauriGain.v>].
 
-   Vocabulary.  kap : nat -> nat -> R is ANY symmetric kernel (PSD or not).  sigma kap a b = sum_{i in a, j in b}
-   kap i j (kernel_stock), rterm kap C = sigma kap C C / |C| is the summand of gemini_objective for cluster C.
-   A leaf N = Sl ++ Sr (left / right part of a split) belongs to cluster C_k = Sl ++ Sr ++ O; O are the samples
-   of the other leaves of that cluster; P, Q are the members of other clusters k_prime.  [stocks_of kap Sl Sr O P f]
-   are the stocks compute_all_splits receives in that situation (sl_clusters[k] = sigma(C_k, Sl), gamma[k,k] =
-   sigma(C_k, C_k), omega[k, feature_id] = sigma(C_k, {f}), sizes as reals).  KauriFormulas.* are the closed forms
-   REGENERATED from gemclus/tree/_utils.pyx on every build (Gen/KauriFormulas.v): if the source formula changes,
-   these theorems are re-checked against the new text. *)
+   Vocabulary.  st : kstate R is an argument tuple of find_best_split (any real kernel matrix, data, leaves =
+   rows of Z, leaf -> cluster map = columns of Y, n_clusters, K_max, min_leaf, leaves to explore, features);
+   c : cand is a Split (leaf, feature, threshold, left_target, right_target).  [objective st] = sum_k
+   sigma(C_k,C_k)/|C_k| (gemini_objective of the labelling), [apply_split st c] is the update Kauri.fit performs,
+   [gain Rops st c] = objective (apply_split st c) - objective st is the TRUE increase.
+   Lp / Rp = left / right part of the candidate's leaf, Op = the other samples of the leaf's cluster k, Cl st k' =
+   members of cluster k'.  [cand_stocks st c P f] are the stocks compute_all_splits receives for that candidate
+   (sl_clusters[k] = sigma(C_k, Lp), gamma[k,k] = sigma(C_k, C_k), omega[k, feature_id] = sigma(C_k, {f}), sizes as
+   reals; P = members of k_prime).  KauriFormulas.* are the closed forms REGENERATED from gemclus/tree/_utils.pyx on
+   every build (Gen/KauriFormulas.v): if a source formula changes these theorems are re-checked against the new
+   text.  [wf_state]: symmetric kernel (PSD or not), |Y columns| = |Z rows|, the leaf exists, cluster ids in use
+   are below n_clusters.
+
+   Not proved here (decided by L2 + L3 on every generated state instead): that the whole incremental scan with the
+   running maximum (Model.find_best true true) returns the arg-max of [gain] over [candidates] - the pieces are
+   proved (formulas C08_*_is_gain, coverage C08_candidates_covered, incremental stocks C08_incremental_stocks_correct,
+   pair choice C08_top2_pair_optimal, per-position maximum C08_scan_is_argmax_partial, arg-max of the specification
+   C08_best_spec_is_argmax), their composition through the fold over leaves/features/positions is not; and the stop
+   rule of the fit loop (C09's loop model), checked by the oracle on every recorded fit. *)
 From Coq Require Import Reals List Bool Arith ZArith.
 From GV Require Import Common.Num Common.NumR Model.KauriGain Gen.KauriFormulas Proofs.KauriGain.
 Import ListNotations.
 Local Open Scope R_scope.
 
-(* --- each regenerated gain formula is the increase of the objective, for all stocks and sizes ------------- *)
+(* === 1. each regenerated gain formula is the true increase of the objective of the state ================== *)
 
-(* left star: the left part becomes a new cluster, the right part stays in C_k *)
-Theorem C08_left_star_is_gain : forall kap, symmetric kap -> forall Sl Sr O P f, Sl <> [] -> Sr ++ O <> [] ->
-  left_star (stocks_of kap Sl Sr O P f) = rterm kap Sl + rterm kap (Sr ++ O) - rterm kap (Sl ++ Sr ++ O).
-Proof. exact left_star_is_gain. Qed.
+(* left star: the left part becomes the new cluster n_clusters, the right part stays in cluster k *)
+Theorem C08_left_star_is_gain : forall st c P f, wf_state st c ->
+  c_left c = ks_nc st -> c_right c = leaf_cluster st c -> (ks_nc st < ks_kmax st)%nat -> Lp st c <> [] -> Rp st c <> [] ->
+  left_star (cand_stocks st c P f) = gain Rops st c.
+Proof. exact left_star_gain. Qed.
 
-Theorem C08_right_star_is_gain : forall kap, symmetric kap -> forall Sl Sr O P f, Sr <> [] -> Sl ++ O <> [] ->
-  right_star (stocks_of kap Sl Sr O P f) = rterm kap Sr + rterm kap (Sl ++ O) - rterm kap (Sl ++ Sr ++ O).
-Proof. exact right_star_is_gain. Qed.
+Theorem C08_right_star_is_gain : forall st c P f, wf_state st c ->
+  c_left c = leaf_cluster st c -> c_right c = ks_nc st -> (ks_nc st < ks_kmax st)%nat -> Lp st c <> [] -> Rp st c <> [] ->
+  right_star (cand_stocks st c P f) = gain Rops st c.
+Proof. exact right_star_gain. Qed.
 
-(* left switch: the left part joins cluster P *)
-Theorem C08_left_switch_is_gain : forall kap, symmetric kap -> forall Sl Sr O P f, Sl <> [] -> Sr ++ O <> [] -> P <> [] ->
-  left_switch (stocks_of kap Sl Sr O P f) =
-  rterm kap (P ++ Sl) + rterm kap (Sr ++ O) - rterm kap P - rterm kap (Sl ++ Sr ++ O).
-Proof. exact left_switch_is_gain. Qed.
+(* left switch: the left part joins another existing (non-empty) cluster *)
+Theorem C08_left_switch_is_gain : forall st c f, wf_state st c ->
+  (c_left c < ks_nc st)%nat -> c_left c <> leaf_cluster st c -> c_right c = leaf_cluster st c -> (ks_nc st <= ks_kmax st)%nat ->
+  Lp st c <> [] -> Rp st c <> [] -> Cl st (c_left c) <> [] ->
+  left_switch (cand_stocks st c (Cl st (c_left c)) f) = gain Rops st c.
+Proof. exact left_switch_gain. Qed.
 
-Theorem C08_right_switch_is_gain : forall kap, symmetric kap -> forall Sl Sr O P f, Sr <> [] -> Sl ++ O <> [] -> P <> [] ->
-  right_switch (stocks_of kap Sl Sr O P f) =
-  rterm kap (P ++ Sr) + rterm kap (Sl ++ O) - rterm kap P - rterm kap (Sl ++ Sr ++ O).
-Proof. exact right_switch_is_gain. Qed.
+Theorem C08_right_switch_is_gain : forall st c f, wf_state st c ->
+  (c_right c < ks_nc st)%nat -> c_right c <> leaf_cluster st c -> c_left c = leaf_cluster st c -> (ks_nc st <= ks_kmax st)%nat ->
+  Lp st c <> [] -> Rp st c <> [] -> Cl st (c_right c) <> [] ->
+  right_switch (cand_stocks st c (Cl st (c_right c)) f) = gain Rops st c.
+Proof. exact right_switch_gain. Qed.
 
-(* reallocation: left part to P, right part to Q (two distinct other clusters), the rest O of C_k stays *)
-Theorem C08_realloc_is_gain : forall kap, symmetric kap -> forall Sl Sr O P Q f,
-  Sl <> [] -> Sr <> [] -> O <> [] -> P <> [] -> Q <> [] ->
-  left_switch (stocks_of kap Sl Sr O P f) + right_switch (stocks_of kap Sl Sr O Q f) + corrective_term (stocks_of kap Sl Sr O P f) =
-  rterm kap (P ++ Sl) + rterm kap (Q ++ Sr) + rterm kap O - rterm kap P - rterm kap Q - rterm kap (Sl ++ Sr ++ O).
-Proof. exact realloc_is_gain. Qed.
+(* reallocation: both parts join two distinct other clusters, the rest of cluster k (non-empty) stays:
+   reported = left_switch(k_left) + right_switch(k_right) + corrective_term *)
+Theorem C08_realloc_is_gain : forall st c f, wf_state st c ->
+  (c_left c < ks_nc st)%nat -> (c_right c < ks_nc st)%nat -> c_left c <> leaf_cluster st c -> c_right c <> leaf_cluster st c ->
+  c_left c <> c_right c -> (ks_nc st <= ks_kmax st)%nat ->
+  Lp st c <> [] -> Rp st c <> [] -> Op st c <> [] -> Cl st (c_left c) <> [] -> Cl st (c_right c) <> [] ->
+  left_switch (cand_stocks st c (Cl st (c_left c)) f) + right_switch (cand_stocks st c (Cl st (c_right c)) f)
+  + corrective_term (cand_stocks st c (Cl st (c_left c)) f) = gain Rops st c.
+Proof. exact realloc_gain. Qed.
 
-(* double star, repaired text (Model.double_star_f with fix7 = true): both parts become new clusters *)
-Theorem C08_double_star_corrected_is_gain : forall kap, symmetric kap -> forall Sl Sr O om, Sl <> [] -> Sr <> [] -> O <> [] ->
-  let Ck := Sl ++ Sr ++ O in let Nl := Sl ++ Sr in
-  double_star_f Rops true (sigma Rops kap Sl Sl) (sigma Rops kap Sr Sr) (sigma Rops kap Nl Nl) (sigma Rops kap Ck Ck)
-                (sigma Rops kap Ck Sl) (sigma Rops kap Ck Sr) om (length Ck) (length Nl) (length Sl) =
-  rterm kap Sl + rterm kap Sr + rterm kap O - rterm kap (Sl ++ Sr ++ O).
-Proof. exact double_star_corrected_is_gain. Qed.
+(* double star, REPAIRED text (Model.double_star_f with fix7 = true): both parts become new clusters *)
+Theorem C08_double_star_corrected_is_gain : forall st c om, wf_state st c ->
+  c_left c = ks_nc st -> c_right c = S (ks_nc st) -> (S (ks_nc st) < ks_kmax st)%nat ->
+  Lp st c <> [] -> Rp st c <> [] -> Op st c <> [] ->
+  let Ck := Lp st c ++ Rp st c ++ Op st c in let Nl := Lp st c ++ Rp st c in
+  double_star_f Rops true (sigma Rops (ks_kernel st) (Lp st c) (Lp st c)) (sigma Rops (ks_kernel st) (Rp st c) (Rp st c))
+                (sigma Rops (ks_kernel st) Nl Nl) (sigma Rops (ks_kernel st) Ck Ck) (sigma Rops (ks_kernel st) Ck (Lp st c))
+                (sigma Rops (ks_kernel st) Ck (Rp st c)) om (length Ck) (length Nl) (length (Lp st c)) = gain Rops st c.
+Proof. exact double_star_corrected_gain. Qed.
 
 (* F7 (known finding): the double-star gain AS WRITTEN in the .pyx is not the increase.
    Witness: identity kernel, leaf {0,1} split {0}|{1}, C_k = {0,1,2}, feature_id 0: reported 5, real 2. *)
@@ -59,7 +79,45 @@ Theorem C08_double_star_asis_refuted :
     double_star_gain (stocks_of kap Sl Sr O P f) <> rterm kap Sl + rterm kap Sr + rterm kap O - rterm kap (Sl ++ Sr ++ O).
 Proof. exact double_star_asis_refuted. Qed.
 
-(* --- the executable as-is model computes exactly the regenerated text ------------------------------------- *)
+(* every admissible candidate is of one of the six kinds above, so its true gain is given by the corresponding
+   (repaired) formula *)
+Theorem C08_candidates_covered : forall st c, state_ok st -> In c (candidates Rops st) -> family_formula st c.
+Proof. exact candidates_covered. Qed.
+
+(* === 2. the same identities for ALL stocks and sizes: any symmetric kernel, any index lists ============== *)
+(* (bilinearity and symmetry of sigma are the only facts used: lemmas sig_app_l, sig_app_r, sig_sym) *)
+
+Theorem C08_left_star_formula : forall kap, symmetric kap -> forall Sl Sr O P f, Sl <> [] -> Sr ++ O <> [] ->
+  left_star (stocks_of kap Sl Sr O P f) = rterm kap Sl + rterm kap (Sr ++ O) - rterm kap (Sl ++ Sr ++ O).
+Proof. exact left_star_is_gain. Qed.
+
+Theorem C08_right_star_formula : forall kap, symmetric kap -> forall Sl Sr O P f, Sr <> [] -> Sl ++ O <> [] ->
+  right_star (stocks_of kap Sl Sr O P f) = rterm kap Sr + rterm kap (Sl ++ O) - rterm kap (Sl ++ Sr ++ O).
+Proof. exact right_star_is_gain. Qed.
+
+Theorem C08_left_switch_formula : forall kap, symmetric kap -> forall Sl Sr O P f, Sl <> [] -> Sr ++ O <> [] -> P <> [] ->
+  left_switch (stocks_of kap Sl Sr O P f) =
+  rterm kap (P ++ Sl) + rterm kap (Sr ++ O) - rterm kap P - rterm kap (Sl ++ Sr ++ O).
+Proof. exact left_switch_is_gain. Qed.
+
+Theorem C08_right_switch_formula : forall kap, symmetric kap -> forall Sl Sr O P f, Sr <> [] -> Sl ++ O <> [] -> P <> [] ->
+  right_switch (stocks_of kap Sl Sr O P f) =
+  rterm kap (P ++ Sr) + rterm kap (Sl ++ O) - rterm kap P - rterm kap (Sl ++ Sr ++ O).
+Proof. exact right_switch_is_gain. Qed.
+
+Theorem C08_realloc_formula : forall kap, symmetric kap -> forall Sl Sr O P Q f,
+  Sl <> [] -> Sr <> [] -> O <> [] -> P <> [] -> Q <> [] ->
+  left_switch (stocks_of kap Sl Sr O P f) + right_switch (stocks_of kap Sl Sr O Q f) + corrective_term (stocks_of kap Sl Sr O P f) =
+  rterm kap (P ++ Sl) + rterm kap (Q ++ Sr) + rterm kap O - rterm kap P - rterm kap Q - rterm kap (Sl ++ Sr ++ O).
+Proof. exact realloc_is_gain. Qed.
+
+Theorem C08_sigma_bilinear_symmetric : forall kap a a' b b',
+  sigma Rops kap (a ++ a') b = sigma Rops kap a b + sigma Rops kap a' b /\
+  sigma Rops kap a (b ++ b') = sigma Rops kap a b + sigma Rops kap a b' /\
+  (symmetric kap -> sigma Rops kap a b = sigma Rops kap b a).
+Proof. intros. split; [apply sig_app_l | split; [apply sig_app_r | intros; now apply sig_sym]]. Qed.
+
+(* === 3. the executable as-is model computes exactly the regenerated text =================================== *)
 
 Theorem C08_asis_formulas_regenerated :
   forall (sl sr lf slck srck slcp srcp gkk gpp om : R) (n s c p : nat), (s <= n)%nat -> (n <= c)%nat ->
@@ -99,7 +157,23 @@ Theorem C08_asis_tests_regenerated : forall (g l r b rf c ls rs tl sl tr sr : R)
   track_second_right ls rs tl sl tr sr = ge_opt Rops (if false then rs else ls) (Some sr).
 Proof. exact asis_tests_regenerated. Qed.
 
-(* --- choice of the reallocation pair ------------------------------------------------------------------------ *)
+(* the stocks maintained incrementally along the sorted leaf (sl_square += 2 alpha + k_xx, ...) are the stocks
+   of the current prefix / suffix, for every symmetric kernel: running the loop with them is running it with the
+   directly computed sigma(Sl,Sl), sigma(Sr,Sr), sum_{i in Sl} omega[a,i], sum_{i in Sr} omega[a,i] *)
+Theorem C08_incremental_stocks_correct : forall (B : Type) kap omega nc
+    (visit : B -> list nat -> nat -> list nat -> R -> R -> list R -> list R -> B),
+  symmetric kap -> forall rest pre acc,
+  scan_gen Rops kap omega nc visit pre rest (sigma Rops kap pre pre) (sigma Rops kap rest rest)
+           (dir_stocks omega nc pre) (dir_stocks omega nc rest) acc
+  = scan_direct kap omega nc visit pre rest acc.
+Proof. exact @incremental_stocks_correct. Qed.
+
+Theorem C08_leaf_square_is_stock : forall (st : @kstate R) j key, symmetric (ks_kernel st) ->
+  let leaf := nth j (ks_leaves st) [] in
+  rsuml (map (fun i => Lambda_of Rops st j i) leaf) = sigma Rops (ks_kernel st) (sort_by Rops key leaf) (sort_by Rops key leaf).
+Proof. exact leaf_square_is_stock. Qed.
+
+(* === 4. choice of the reallocation pair ===================================================================== *)
 
 (* repaired tracker (fix8 = true): the pair returned is the best ordered pair of two distinct clusters *)
 Theorem C08_top2_pair_optimal : forall es : list entry, NoDup (map e_id es) -> (2 <= length es)%nat ->
@@ -108,13 +182,17 @@ Theorem C08_top2_pair_optimal : forall es : list entry, NoDup (map e_id es) -> (
     (forall e1 e2, In e1 es -> In e2 es -> e_id e1 <> e_id e2 -> e_gl e1 + e_gr e2 <= r).
 Proof. exact top2_pair_optimal. Qed.
 
-(* the trackers inside the model's loop over k_prime are those folds *)
+(* the trackers inside the model's loop over k_prime are those folds, over distinct cluster ids *)
 Theorem C08_switch_loop_tracks : forall fix8 sl_square sr_square slc src cs gamma n_leaf k leaf_id split_size feat thr ks best tl tr,
   let res := fold_left (switch_step Rops fix8 sl_square sr_square slc src cs gamma n_leaf k leaf_id split_size feat thr)
                        ks (best, tl, tr) in
   snd (fst res) = track_left_from tl (entries_of sl_square sr_square slc src cs gamma n_leaf k split_size ks) /\
-  snd res = track_right_from fix8 tr (entries_of sl_square sr_square slc src cs gamma n_leaf k split_size ks).
-Proof. exact switch_fold_tracks. Qed.
+  snd res = track_right_from fix8 tr (entries_of sl_square sr_square slc src cs gamma n_leaf k split_size ks) /\
+  (forall nc, NoDup (map e_id (entries_of sl_square sr_square slc src cs gamma n_leaf k split_size (seq 0 nc)))).
+Proof.
+  intros. destruct (switch_fold_tracks fix8 sl_square sr_square slc src cs gamma n_leaf k leaf_id split_size feat thr ks best tl tr) as [H1 H2].
+  split; [exact H1 | split; [exact H2 | intros; apply entries_of_ids]].
+Qed.
 
 (* F8 (known finding): as written (`elif left_switch >= second_gain_right`) the best pair can be missed with
    three other clusters, i.e. n_clusters >= 4: (left, right) switch gains (10,10), (5,1), (-5,8) -> 15 instead of 18 *)
@@ -125,7 +203,23 @@ Theorem C08_second_right_asis_refuted :
   (exists ls rs tl sl tr sr, track_second_right ls rs tl sl tr sr <> ge_opt Rops rs (Some sr)).
 Proof. exact second_right_asis_refuted. Qed.
 
-(* --- the specification: arg-max over all admissible candidates, telescoping -------------------------------- *)
+(* PARTIAL towards "the repaired scan returns the arg-max": at ONE split position (given stocks), the repaired
+   compute_all_splits (fix7 = fix8 = true) returns the running best updated with the maximum over EVERY target pair
+   it evaluates there - pos_values = double star, both stars, every switch, every ordered pair of distinct other
+   clusters + corrective term, each under its guard - and the split it returns carries the value it was compared
+   with ([covers]: the gain never decreases, dominates every value, and is the old best or one of the values).
+   Missing for the full statement: (a) the stocks at the position are cand_stocks of a threshold candidate (needs
+   sortedness of the argsort model and prefix = {X <= t}); (b) pos_values correspond one-to-one to [candidates];
+   (c) the fold of this lemma over positions, features and leaves.  (a)-(c) are covered by L2/L3: the extracted
+   repaired model is compared with best_spec and with a python brute force on every generated state. *)
+Theorem C08_scan_is_argmax_partial :
+  forall (sl sr lf : R) (slc src : nat -> R) (cs : nat -> nat) (gamma omega : nat -> nat -> R)
+         (n_leaf nc kmax k leaf_id split_size feat : nat) (thr : R) (best : split),
+  covers leaf_id feat thr (pos_values sl sr lf slc src cs gamma omega n_leaf nc kmax k split_size feat) best
+         (compute_all_splits Rops true true best sl sr lf slc src cs gamma omega n_leaf nc kmax k leaf_id split_size feat thr).
+Proof. exact compute_all_splits_fixed_covers. Qed.
+
+(* === 5. the specification: arg-max over all admissible candidates, telescoping ============================ *)
 
 Theorem C08_best_spec_is_argmax : forall (st : @kstate R) (c : @cand R),
   In c (candidates Rops st) -> gain Rops st c <= gain Rops st (best_spec Rops st).
@@ -140,14 +234,14 @@ Theorem C08_score_is_root_plus_gains : forall (cs : list (@cand R)) (st : @kstat
   objective Rops (run_splits Rops st cs) = objective Rops st + rsuml (gains_along Rops st cs).
 Proof. exact score_is_root_plus_gains. Qed.
 
-(* non-vacuity: the F7 witness state evaluated on the executable as-is formula and on the objective *)
+(* non-vacuity: a concrete 3-sample state (identity kernel, two leaves in one cluster, K_max = 3) meets the
+   hypotheses of the theorems above and its double-star candidate is enumerated by [candidates] *)
 Example C08_nonvacuous :
-  symmetric kid /\
-  double_star_f Rops false (sigma Rops kid [0%nat] [0%nat]) (sigma Rops kid [1%nat] [1%nat]) (sigma Rops kid [0;1]%nat [0;1]%nat)
-                (sigma Rops kid [0;1;2]%nat [0;1;2]%nat) (sigma Rops kid [0;1;2]%nat [0%nat]) (sigma Rops kid [0;1;2]%nat [1%nat])
-                (sigma Rops kid [0;1;2]%nat [0%nat]) 3 2 1 = 5 /\
-  rterm kid [0%nat] + rterm kid [1%nat] + rterm kid [2%nat] - rterm kid [0;1;2]%nat = 2.
-Proof. split; [exact kid_sym | exact double_star_asis_model_refuted]. Qed.
+  state_ok ex_state /\ wf_state ex_state ex_cand /\
+  Lp ex_state ex_cand = [0%nat] /\ Rp ex_state ex_cand = [1%nat] /\ Op ex_state ex_cand = [2%nat] /\
+  c_left ex_cand = ks_nc ex_state /\ c_right ex_cand = S (ks_nc ex_state) /\ (S (ks_nc ex_state) < ks_kmax ex_state)%nat /\
+  In ex_cand (candidates Rops ex_state).
+Proof. exact ex_state_ok. Qed.
 
 Print Assumptions C08_left_star_is_gain.
 Print Assumptions C08_right_star_is_gain.
@@ -156,12 +250,22 @@ Print Assumptions C08_right_switch_is_gain.
 Print Assumptions C08_realloc_is_gain.
 Print Assumptions C08_double_star_corrected_is_gain.
 Print Assumptions C08_double_star_asis_refuted.
+Print Assumptions C08_candidates_covered.
+Print Assumptions C08_left_star_formula.
+Print Assumptions C08_right_star_formula.
+Print Assumptions C08_left_switch_formula.
+Print Assumptions C08_right_switch_formula.
+Print Assumptions C08_realloc_formula.
+Print Assumptions C08_sigma_bilinear_symmetric.
 Print Assumptions C08_asis_formulas_regenerated.
 Print Assumptions C08_asis_guards_regenerated.
 Print Assumptions C08_asis_tests_regenerated.
+Print Assumptions C08_incremental_stocks_correct.
+Print Assumptions C08_leaf_square_is_stock.
 Print Assumptions C08_top2_pair_optimal.
 Print Assumptions C08_switch_loop_tracks.
 Print Assumptions C08_second_right_asis_refuted.
+Print Assumptions C08_scan_is_argmax_partial.
 Print Assumptions C08_best_spec_is_argmax.
 Print Assumptions C08_best_spec_is_candidate.
 Print Assumptions C08_score_is_root_plus_gains.
